@@ -349,6 +349,31 @@ def mutate(doc, mut, sel1, sel2):
 
 def base_doc(case):
     src = case["src"]
+    if src["kind"] == "sink":
+        # one fixed module holding every kind of node the builders make in a function body
+        import hugr.ops as hops
+        import hugr.tys as htys
+        import hugr.val as hval
+        from hugr.build.function import Module
+        from hugr.std.int import IntVal
+        from hugr.std.logic import Not
+
+        m = Module()
+        decl = m.declare_function("ext_fn", htys.PolyFuncType([htys.TypeTypeParam(htys.TypeBound.Copyable)], htys.FunctionType([htys.Variable(0, htys.TypeBound.Copyable)], [])))
+        f = m.define_function("main", [htys.Bool, htys.Qubit], None)
+        b, q = f.inputs()
+        nb = f.add_op(Not, b, metadata={"k": 1})
+        t = f.add_op(hops.MakeTuple(), nb, b)
+        u = f.add_op(hops.UnpackTuple(), t)
+        c = f.load(IntVal(3, 4))
+        f.call(decl, b, instantiation=htys.FunctionType([htys.Bool], []), type_args=[htys.TypeTypeArg(htys.Bool)])
+        lf = f.load_function(decl, instantiation=htys.FunctionType([htys.Bool], []), type_args=[htys.TypeTypeArg(htys.Bool)])
+        tg = f.add_op(hops.Tag(1, htys.Sum([[htys.Bool], [htys.Bool, htys.Bool]])), u[0], u[1])
+        cu = f.add_op(hops.Custom("op", htys.FunctionType([htys.Qubit], [htys.Qubit]), extension="my.ext", args=[htys.BoundedNatArg(2)]), q)
+        with f.add_nested(b) as d:
+            d.set_outputs(*d.inputs())
+        f.set_outputs(cu[0], tg, c, lf)
+        return "SerialHugr", json.loads(m.hugr.to_json())
     if src["kind"] == "fnconst":
         # a module whose constant is a function value (a nested HUGR document inside the document)
         import hugr.tys as htys
@@ -574,7 +599,7 @@ def strict_strategy(tier):
 REQUIRES = {"deletes-top-level-version": _deletes_version, "strict-config-inside-unions": lambda case: case.get("where") == "nested"}
 
 SUBS = [
-    Sub("sweep", check_sweep, enumerate=lambda tier: iter([{"src": {"kind": "fnconst"}}]), strategy=sweep_strategy, nontrivial=lambda c: True, classes=lambda c: [c["src"]["kind"]], n_quick=5, n_thorough=40, sample_ok=lambda c: len(json.dumps(c)) < 2500),
+    Sub("sweep", check_sweep, enumerate=lambda tier: iter([{"src": {"kind": "fnconst"}}, {"src": {"kind": "sink"}}]), strategy=sweep_strategy, nontrivial=lambda c: True, classes=lambda c: [c["src"]["kind"]], n_quick=5, n_thorough=40, sample_ok=lambda c: len(json.dumps(c)) < 2500),
     Sub("files", check_version, enumerate=enum_files, nontrivial=lambda c: True, exhaustive=True, shardable=False),
     Sub("rebuild-histories", check_history, enumerate=lambda tier: iter([{"history": [["SerialHugr", x], ["TestingHugr", y], ["SerialHugr", x]]} for x, y in (("strict", "lax"), ("lax", "strict"))] + [{"history": [["TestingHugr", y], ["SerialHugr", x]]} for x, y in (("strict", "lax"), ("lax", "strict"))]), strategy=history_strategy, nontrivial=lambda c: len(c["history"]) >= 3, classes=lambda c: ["ends-" + c["history"][-1][1]], n_quick=4, n_thorough=80),
     Sub("strict-config", check_strict, strategy=strict_strategy, nontrivial=lambda c: c["where"] == "nested", classes=lambda c: [c["mut"] + ":" + c["where"]], n_quick=60, n_thorough=600,
